@@ -3276,6 +3276,14 @@ Box<ITV>
   if (is_empty()) {
     return;
   }
+  // The code below computes the bounds of `var' assuming a positive
+  // denominator: normalize the sign of the denominator.
+  if (denominator < 0) {
+    PPL_DIRTY_TEMP_COEFFICIENT(minus_denom);
+    neg_assign(minus_denom, denominator);
+    bounded_affine_image(var, -lb_expr, -ub_expr, minus_denom);
+    return;
+  }
   // Add the constraint implied by the `lb_expr' and `ub_expr'.
   if (denominator > 0) {
     refine_with_constraint(lb_expr <= ub_expr);
